@@ -118,6 +118,49 @@ theorem escBody_length (bs : Bytes) : (escBody bs).length = 4 * bs.length := by
   | nil => rfl
   | cons c rest ih => simp only [escBody, escByte, List.length_append, List.length_cons, List.length_nil, ih]; omega
 
+/-! ### hextable -/
+
+theorem hextableAux_nil (cols fuel off : Nat) : hextableAux cols fuel off [] = [] := by
+  cases fuel <;> simp [hextableAux]
+
+/-- one row: data that fits into a single line of `cols` columns is rendered by exactly one `hexRow` at offset 0 -/
+theorem hextable_one_row (bs : Bytes) (cols : Nat) (hne : bs ≠ []) (hfit : bs.length ≤ 2 * cols) :
+    hextable bs cols = hexRow cols 0 bs := by
+  unfold hextable
+  cases hb : bs with
+  | nil => exact absurd hb hne
+  | cons c rest =>
+    have hl : (c :: rest).length ≤ 2 * cols := by rw [← hb]; exact hfit
+    simp only [List.length_cons, hextableAux, List.isEmpty_cons, Bool.false_eq_true, if_false]
+    rw [List.take_of_length_le hl, List.drop_of_length_le hl, hextableAux_nil, List.append_nil]
+
+/-- two rows: the second row starts at byte offset `2 * cols` -/
+theorem hextable_two_rows (a b : Bytes) (cols : Nat) (ha : a.length = 2 * cols) (hc : 0 < cols)
+    (hne : b ≠ []) (hfit : b.length ≤ 2 * cols) :
+    hextable (a ++ b) cols = hexRow cols 0 a ++ hexRow cols (2 * cols) b := by
+  unfold hextable
+  have hlen : (a ++ b).length = (a.length + b.length - 1) + 1 := by
+    have : 0 < b.length := List.length_pos_iff.mpr hne
+    simp only [List.length_append]; omega
+  rw [hlen, hextableAux]
+  have hnotempty : (a ++ b).isEmpty = false := by
+    cases a with
+    | nil => simp at ha; omega
+    | cons x xs => rfl
+  rw [hnotempty]
+  simp only [Bool.false_eq_true, if_false, Nat.zero_add]
+  rw [← ha, List.take_left, List.drop_left]
+  have hb1 : a.length + b.length - 1 = (a.length + b.length - 2) + 1 := by
+    have : 0 < b.length := List.length_pos_iff.mpr hne
+    omega
+  rw [hb1, hextableAux]
+  cases hb : b with
+  | nil => exact absurd hb hne
+  | cons c rest =>
+    have hl : (c :: rest).length ≤ 2 * cols := by rw [← hb]; exact hfit
+    simp only [List.isEmpty_cons, Bool.false_eq_true, if_false]
+    rw [List.take_of_length_le hl, List.drop_of_length_le hl, hextableAux_nil, List.append_nil]
+
 /-! ### tow2utc -/
 
 theorem tow2utc_range (tow : Int) :
